@@ -558,3 +558,128 @@ pub async fn h3_tunnel(
     flush(&socket, &mut conn).await;
     seen
 }
+
+#[derive(Debug, Default, Clone)]
+pub struct HoldSeen {
+    pub established: bool,
+    pub ping_status: Option<u16>,
+    /// the peer sent CONNECTION_CLOSE (transport or application) before the limit
+    pub closed_by_peer: bool,
+    pub peer_error: Option<String>,
+    pub error: Option<String>,
+}
+
+/// Open an HTTP/3 connection, do one x-ping request, tell `ready`, then just keep the connection
+/// alive until the peer closes it or `limit` after `go` has passed.
+pub async fn h3_hold(
+    peer: SocketAddr,
+    sni: &str,
+    ready: tokio::sync::mpsc::Sender<()>,
+    mut go: tokio::sync::watch::Receiver<Option<Instant>>,
+    limit: Duration,
+) -> HoldSeen {
+    let mut seen = HoldSeen::default();
+    let Ok(socket) = UdpSocket::bind("127.0.0.1:0").await else {
+        seen.error = Some("bind".into());
+        return seen;
+    };
+    let mut scid = [0u8; quiche::MAX_CONN_ID_LEN];
+    let _ = ring::rand::SecureRandom::fill(&ring::rand::SystemRandom::new(), &mut scid);
+    let mut config = quiche::Config::new(quiche::PROTOCOL_VERSION).unwrap();
+    config.verify_peer(false);
+    config.set_max_idle_timeout(30_000);
+    config.set_max_recv_udp_payload_size(MAX_UDP_PAYLOAD);
+    config.set_max_send_udp_payload_size(MAX_UDP_PAYLOAD);
+    config.set_initial_max_data(1_000_000);
+    config.set_initial_max_stream_data_bidi_local(200_000);
+    config.set_initial_max_stream_data_bidi_remote(200_000);
+    config.set_initial_max_stream_data_uni(200_000);
+    config.set_initial_max_streams_bidi(100);
+    config.set_initial_max_streams_uni(100);
+    let _ = config.set_application_protos(&[b"h3"]);
+    let mut conn = match quiche::connect(Some(sni), &quiche::ConnectionId::from_ref(&scid), socket.local_addr().unwrap(), peer, &mut config) {
+        Ok(c) => c,
+        Err(e) => {
+            seen.error = Some(format!("connect: {}", e));
+            return seen;
+        }
+    };
+    flush(&socket, &mut conn).await;
+    let setup_deadline = Instant::now() + Duration::from_secs(5);
+    while !conn.is_established() {
+        if conn.is_closed() || Instant::now() > setup_deadline {
+            seen.error = Some("QUIC handshake did not complete".into());
+            return seen;
+        }
+        wait_io(&socket, &conn).await;
+        read_out(&socket, &mut conn);
+        conn.on_timeout();
+        flush(&socket, &mut conn).await;
+    }
+    seen.established = true;
+    let Ok(mut h3_conn) = h3::Connection::with_transport(&mut conn, &h3::Config::new().unwrap()) else {
+        seen.error = Some("h3".into());
+        return seen;
+    };
+    let authority = format!("{}:{}", sni, peer.port());
+    let hdrs = [
+        h3::Header::new(b":method", b"GET"),
+        h3::Header::new(b":scheme", b"https"),
+        h3::Header::new(b":authority", authority.as_bytes()),
+        h3::Header::new(b":path", b"/"),
+        h3::Header::new(b"x-ping", b"1"),
+    ];
+    let _ = h3_conn.send_request(&mut conn, &hdrs, true);
+    flush(&socket, &mut conn).await;
+    let mut told = false;
+    let mut t0: Option<Instant> = None;
+    loop {
+        read_out(&socket, &mut conn);
+        loop {
+            match h3_conn.poll(&mut conn) {
+                Ok((_, h3::Event::Headers { list, .. })) => {
+                    seen.ping_status = list.iter().find(|h| h.name() == b":status").and_then(|h| std::str::from_utf8(h.value()).ok().and_then(|s| s.parse().ok()));
+                }
+                Ok(_) => {}
+                Err(_) => break,
+            }
+        }
+        if !told && (seen.ping_status.is_some() || Instant::now() > setup_deadline) {
+            told = true;
+            let _ = ready.send(()).await;
+        }
+        if t0.is_none() {
+            t0 = *go.borrow_and_update();
+        }
+        if conn.is_closed() || conn.is_draining() {
+            if let Some(e) = conn.peer_error() {
+                seen.closed_by_peer = true;
+                seen.peer_error = Some(format!("is_app={} code={:#x} reason={:?}", e.is_app, e.error_code, String::from_utf8_lossy(&e.reason)));
+            }
+            break;
+        }
+        if let Some(t) = t0 {
+            if Instant::now() > t + limit {
+                break;
+            }
+        } else if Instant::now() > setup_deadline + Duration::from_secs(30) {
+            break;
+        }
+        conn.on_timeout();
+        flush(&socket, &mut conn).await;
+        let t = conn.timeout().unwrap_or(Duration::from_millis(10)).min(Duration::from_millis(10));
+        let _ = tokio::time::timeout(t, socket.readable()).await;
+    }
+    if std::env::var("VERIF_DEBUG").is_ok() {
+        eprintln!(
+            "h3_hold end: closed={} draining={} timed_out={} peer_error={:?} local_error={:?} stats={:?}",
+            conn.is_closed(),
+            conn.is_draining(),
+            conn.is_timed_out(),
+            conn.peer_error().map(|e| (e.is_app, e.error_code)),
+            conn.local_error().map(|e| (e.is_app, e.error_code)),
+            conn.stats()
+        );
+    }
+    seen
+}
